@@ -4,13 +4,13 @@ package board
 // Position.Move must accept exactly the legal ones and produce the successor of the rules.
 
 // tierSquare: the thorough tier takes all 64 values of a case-split square; the quick tier
-// takes six of them (corner, edge, home squares, centre), rotated by VERIF_SEED.
+// takes eight of them (corners, king home squares, one square on each pawn start rank, centre), rotated by VERIF_SEED.
 func tierSquare(sq uint64) bool {
 	if !verifQuick() {
 		return true
 	}
 	s := (sq + 64 - verifSeed()%64) % 64
-	return s == 0 || s == 3 || s == 28 || s == 39 || s == 59 || s == 63
+	return s == 0 || s == 3 || s == 12 || s == 28 || s == 39 || s == 51 || s == 59 || s == 63
 }
 
 var refKingStep = [8]int{1, 9, 8, 7, -1, -9, -8, -7}
